@@ -246,14 +246,17 @@ def walk_matches(ast, out_s, out_r, out_c):
         ch(ru["body"])
 
 
+def exc_info(e):
+    """the TYPE of an exception as the model sees it: class name + names of the classes in its MRO"""
+    return {"name": type(e).__name__, "mro": [c.__name__ for c in type(e).__mro__ if c is not object]}
+
+
 def o_regex(s, ignore_case):
     try:
         RegExMatch(s, ignore_case=ignore_case).compile()
-        return "ok"
-    except Exception as e:      # the handler in visit_re_match catches Exception
-        return "error"
-    except BaseException as e:
-        return "base:" + type(e).__name__
+        return None
+    except BaseException as e:      # noqa: BLE001 - the type is the oracle's answer
+        return exc_info(e)
 
 
 def o_decode(s):
@@ -262,40 +265,43 @@ def o_decode(s):
         to_match = ("'" + s + "'")[1:-1]
         if "\\" in to_match:
             lang.decode_escapes(to_match)
-        return "ok"
-    except IndexError:
-        return "index"
-    except UnicodeDecodeError:
-        return "unicode"
-    except BaseException as e:
-        return "other:" + type(e).__name__
+        return None
+    except BaseException as e:      # noqa: BLE001
+        return exc_info(e)
 
 
 def o_ext(language, name):
     try:
         mm = metamodel_for_language(language)
-    except TextXError as e:
-        return "notregistered" if type(e).__name__ == "TextXRegistrationError" else "other:" + type(e).__name__
-    except BaseException as e:
-        return "other:" + type(e).__name__
+    except BaseException as e:      # noqa: BLE001
+        return {"k": "raises", "exc": exc_info(e)}
     if isinstance(mm, TextXMetaMetaModel):
         try:
             mm.metamodel[name]
-            return "builtin:found"
+            return {"k": "builtin", "found": True}
         except KeyError:
-            return "builtin:missing"
+            return {"k": "builtin", "found": False}
     try:
         mm[name]
-        return "found"
+        return {"k": "found"}
     except KeyError:
-        return "missing"
-    except BaseException as e:
-        return "other:" + type(e).__name__
+        return {"k": "missing"}
+    except BaseException as e:      # noqa: BLE001
+        return {"k": "other", "exc": exc_info(e)}
+
+
+def user_class(name):
+    def __init__(self, parent=None, **kwargs):
+        for k, v in kwargs.items():
+            setattr(self, k, v)
+    return type(str(name), (), {"__init__": __init__})
 
 
 def run_case(case):
     text = case["text"]
-    kwargs = case.get("kwargs") or {}
+    kwargs = dict(case.get("kwargs") or {})
+    if case.get("user"):
+        kwargs["classes"] = [user_class(n) for n in case["user"]]
     res = {}
     try:
         metamodel_from_str(text, **kwargs)
@@ -315,8 +321,11 @@ def run_case(case):
         del tb
     try:
         tree = grammar_parser().parse(text)
+    except BaseException as e:      # noqa: BLE001  NoMatch, or e.g. RecursionError of the recursive-descent parser
+        res["parse_exc"] = exc_info(e)
+        return res
+    try:
         ast = x_tree(tree)
-        res["ast"] = ast
         ss, rs, cs = set(), set(), set()
         walk_matches(ast, ss, rs, cs)
         ic = bool(kwargs.get("ignore_case", False))
@@ -332,12 +341,11 @@ def run_case(case):
                     ext.append([langs[ns], nm, o_ext(langs[ns], nm)])
         res["oracle"] = {"re": [[s, o_regex(s, ic)] for s in sorted(rs)],
                          "dec": [[s, o_decode(s)] for s in sorted(ss)], "ext": ext}
-    except NoMatch:
-        res["ast"] = {"syn": True}
+        res["ast"] = ast
     except Shape as e:
         res["ast_error"] = "Shape: " + str(e)
-    except BaseException as e:      # e.g. RecursionError of the recursive-descent parser on deep nesting
-        res["ast_error"] = type(e).__name__
+    except BaseException as e:      # noqa: BLE001
+        res["ast_error"] = "extractor: " + type(e).__name__
     return res
 
 
